@@ -1,0 +1,15 @@
+//go:build verif
+
+package impl
+
+// Contracts for the deductive checker in /verif (comment-only; compiled only under the verif tag).
+
+// The canonical encoding of a field element has exactly FpBytes / FqBytes bytes (decoders index into it).
+//@ func (*Fp).Bytes
+//@   property C13
+//@   purefn
+//@   ensures len(result) == FpBytes
+//@ func (*Fq).Bytes
+//@   property C13
+//@   purefn
+//@   ensures len(result) == FqBytes
